@@ -452,14 +452,18 @@ func (d *driver) runStream(s *stream) {
 	w.dials++
 	var reply []byte
 	timedOut := false
-	conn.SetWriteDeadline(time.Now().Add(replyWatchdog))
+	wd := replyWatchdog
+	if s.bigFrames > 0 {
+		wd = 4 * replyWatchdog // clearing a (permitted) buffer of up to 1 GiB can take tens of seconds on a loaded machine
+	}
+	conn.SetWriteDeadline(time.Now().Add(wd))
 	_, werr := conn.Write(s.Bytes)
 	_ = werr // the node may close before reading everything: not an observation by itself
 	if s.Abrupt {
 		conn.Close()
 	} else {
 		conn.(*net.TCPConn).CloseWrite()
-		conn.SetReadDeadline(time.Now().Add(replyWatchdog))
+		conn.SetReadDeadline(time.Now().Add(wd))
 		buf, rerr := io.ReadAll(io.LimitReader(conn, replyCap))
 		reply = buf
 		if ne, ok := rerr.(net.Error); ok && ne.Timeout() {
@@ -491,7 +495,7 @@ func (d *driver) runStream(s *stream) {
 	w.last = st
 	if timedOut {
 		r.Count("reply_watchdog_hit", 1)
-		r.Inconclusive(fmt.Sprintf("%s: node neither answered nor closed within %v after the client half-closed (%s)", s.ID, replyWatchdog, frameSummary(s)))
+		r.Inconclusive(fmt.Sprintf("%s: node neither answered nor closed within %v after the client half-closed (%s)", s.ID, wd, frameSummary(s)))
 	}
 	if st.Active > 0 {
 		r.Count("handlers_still_running_at_stat", 1)
